@@ -1,6 +1,7 @@
 CONSTANTS
   Snaps <- MCSnaps3
   MaxChanges = 100
+  ACfgs <- MCNoACfgs
   WithPartial = TRUE
 INIT TInit
 NEXT TNext
